@@ -332,6 +332,8 @@ def catalogue(tier="quick"):
     out.append(("meter_change", Doc([Staff(1, measures=[[[N("C", 4, 1)]], [[N("D", 4, 2, 1)]], [[N("E", 4, 2, 1)]]], meter_changes={1: (3, 4)})]), both))
     out.append(("octaves_and_accidentals", Doc([Staff(1, measures=[[[N("C", 2, 4, alter=1), N("B", 5, 4, alter=-1), N("F", 6, 4, alter=2), N("E", 1, 4, alter=-2)]],
                                                                     [[N("A", 3, 4, alter=0), N("G", 4, 4), R(2)]]])]), both))
+    out.append(("twelve_eight", Doc([Staff(1, meter=(12, 8), measures=[[[N("C", 4, 4, 1), N("D", 4, 4, 1), N("E", 4, 2, 1)]], [[N("G", 4, 1, 1)]]])]), both))
+    out.append(("three_sixteen_then_twelve_sixteen", Doc([Staff(1, meter=(3, 16), measures=[[[N("C", 4, 8, 1)]], [[N("D", 4, 2, 1)]], [[N("E", 4, 4, 1), N("F", 4, 4, 1)]]], meter_changes={1: (12, 16)})]), both))
     out.append(("compound_6_8", Doc([Staff(1, meter=(6, 8), measures=[[[N("C", 4, 4, 1), N("D", 4, 8), N("E", 4, 8), N("F", 4, 8)]], [[N("G", 4, 2, 1)]]])]), both))
     # MEI only: layers, cross-staff notes
     mei = ("mei",)
